@@ -38,9 +38,9 @@ Proof.
   rewrite wrap32_id by auto. reflexivity.
 Qed.
 
-Theorem desugar_correct_IL fl p st fuel st' :
+Theorem desugar_correct_IL tg fl p st fuel st' :
   wf_prog IL p = true ->
-  run_struct IL fuel (Strict fl) p st = Ok st' ->
+  run_struct IL fuel (Strict tg fl) p st = Ok st' ->
   exists fuel' tm', run_flat IL fuel' (desugar IL fl p) st = Ok (st', tm').
 Proof. apply desugar_correct_strict. apply IL_const. apply IL_i32. apply IL_rw. Qed.
 
@@ -74,11 +74,11 @@ Definition demo : block IL :=
 Example demo_wf : wf_prog IL demo = true.
 Proof. vm_cast_no_check (eq_refl true). Qed.
 Example demo_runs_ne :
-  match run_struct IL 200 (Strict PredecNeZero) demo (init 0 [(0, 2)]) with
+  match run_struct IL 200 (Strict true PredecNeZero) demo (init 0 [(0, 2)]) with
   | Ok st' => Nat.eqb (length (s_log st')) 11 | _ => false end = true.
 Proof. vm_compute. reflexivity. Qed.
 Example demo_runs_gt :
-  match run_struct IL 200 (Strict PredecGtZero) demo (init 0 [(0, 2)]) with
+  match run_struct IL 200 (Strict true PredecGtZero) demo (init 0 [(0, 2)]) with
   | Ok st' => Nat.eqb (length (s_log st')) 11 | _ => false end = true.
 Proof. vm_compute. reflexivity. Qed.
 
@@ -202,7 +202,7 @@ Qed.
 
 Theorem monotone_no_time_reset_IL fl p st fuel :
   wf_prog IL p = true -> mono_block IL p 0 = true -> s_time st <= 0 ->
-  run_struct IL fuel (Strict fl) p st <> Err E_TIMERESET.
+  run_struct IL fuel (Strict true fl) p st <> Err E_TIMERESET.
 Proof.
   apply monotone_no_time_reset.
   - intros e r. apply ieval_no_err.
